@@ -496,6 +496,12 @@ def random_dep(r) -> dict:
         if h["coro"]:
             h["veto"] = False
             h["refresh"] = NOREFRESH
+    # several coroutine handlers on the same event of the same element (each is a task of its own)
+    for h in list(hs):
+        if h["coro"] and h["ev"] in ("W", "C") and r.random() < 0.5:
+            hs.append(dict(h))
+            if r.random() < 0.4:
+                hs.append(dict(h))
     # one handler attached to several elements: a copy of an entry for another element of the same device, sharing its method
     extra = []
     for h in hs:
@@ -612,7 +618,7 @@ def switch_traces(tier: str) -> List[dict]:
     """C09: every transition of every (rule, n, configuration) graph: one one-step trace per (state, operation)."""
     import itertools
     out = []
-    maxn = 4 if tier == "quick" else 5
+    maxn = {"quick": 4, "veto-only": 2}.get(tier, 5)
     for rule in ("OneOfMany", "AtMostOne", "AnyOfMany"):
         for n in range(1, maxn + 1):
             names = ["s%d" % i for i in range(1, n + 1)]
@@ -634,7 +640,8 @@ def switch_traces(tier: str) -> List[dict]:
                         ops.append({"o": "sel", "v": 1, "names": list(sel)})
                 # one fresh driver per operation, so that every transition starts from exactly this configuration
                 for op in ops:
-                    out.append(run_trace(switch_dep(rule, n, list(ini)), lambda w, op=op: [op]))
+                    if tier != "veto-only":
+                        out.append(run_trace(switch_dep(rule, n, list(ini)), lambda w, op=op: [op]))
                 # the same writes with a Write handler that vetoes the default on one switch (a vetoed write changes nothing)
                 if n <= 3:
                     for ve in range(1, n + 1):
@@ -743,6 +750,9 @@ def run(prop: str, tier: str) -> int:
             traces.append(run_trace(dep, lambda w, dep=dep: random_ops(r, dep, r.randint(8, 30), w)))
         except DeploymentBroken as e:
             v.violation(str(e), {"kind": "deployment", "what": str(e)})
+    if prop in ("C14", "C06"):
+        # every exclusive-rule configuration of two switches with a vetoing Write handler: a vetoed write changes nothing at all
+        traces += [t for t in switch_traces("veto-only")]
     if prop != "C09":
         nb = 0
         for dep, ops in tlc_behaviours(40 if tier == "quick" else 600, 14, seed()):
